@@ -40,3 +40,63 @@ def replay_values(path, wd, judge):
     bad = judge(o, r)
     print("replay: %s" % ("VIOLATED" if bad else "holds"))
     return 1 if bad else 0
+
+
+def pair_part(rep, wd, binpath, rnd, label, reps=1):
+    """two multi-valued variables of the same type declared with the SAME default slice (as it is, or empty with spare capacity), both
+    given values in one invocation: each holds exactly its own tokens (Values.tla predicts either variable on its own).
+    Returns the number of cases; reports violations on rep."""
+    cases, abs1, abs2, toks2 = [], [], [], []
+    for typ in ("strings", "ints", "floats"):
+        tk = V.Tok(typ)
+        for role in ("opt", "arg"):
+            for pair in ("shared", "sharedcap"):
+                for n1 in (0, 1, 2, 3):
+                    for n2 in (0, 1, 2):
+                        for _ in range(reps):
+                            default = V.DEFAULTS[typ][0] if pair == "shared" else []
+                            c, a = V.concrete(typ, role, False, default, (), ("valid",) * n1, rnd)
+                            t2 = [tk.valid() for _ in range(n2)]
+                            t2 = [t for t in t2 if t and not t.startswith("-") and t.strip() == t and "=" not in t]
+                            c["pair"] = pair
+                            extra = []
+                            for t in t2:
+                                extra += rnd.choice([["-p", t], ["--pair=" + t], ["-p=" + t]])
+                            if role == "opt":
+                                c["spec"] = "[-o | -p]..."
+                                k = rnd.randint(0, len(c["argv"]))
+                                c["argv"] = c["argv"][:k] + extra + c["argv"][k:] if all(len(x) for x in c["argv"]) and not any(x in ("-o", "--opt") for x in c["argv"]) else extra + c["argv"]
+                            else:
+                                c["spec"] = "[-p]... " + c["spec"]
+                                c["argv"] = extra + c["argv"]
+                            c["cli_first"] = list(c["cli"])
+                            c["cli"] = list(c["cli"]) + t2      # the harness reports strconv's reading of every token listed here
+                            cases.append(c)
+                            abs1.append(a)
+                            abs2.append({"multi": True, "envs": [], "cli": [{"id": t, "ok": True} for t in t2]})
+                            toks2.append(t2)
+    sub = os.path.join(wd, label)
+    os.makedirs(sub, exist_ok=True)
+    res1, clean1, _ = V.predict(sub, abs1)
+    rep.add_tlc(res1)
+    res2, clean2, _ = V.predict(sub, abs2)
+    rep.add_tlc(res2)
+    results = core.run_harness(binpath, "values", [{k: v for k, v in c.items() if k != "cli_first"} for c in cases], sub)
+    for c, p1, p2, r in zip(cases, clean1, clean2, results):
+        rep.cov["evaluations"] += 1
+        if r.get("skipped"):
+            continue
+        if r.get("hang") or r.get("crash"):
+            rep.violation("%s: %s" % (describe(c), r), {"engine": "values", "case": c, "expected": None})
+            continue
+        w1, w2 = V.expected_value(c, p1, r), V.expected_value(c, p2, r)
+        if not r["ran"] or r["value"] != w1 or r.get("value2", []) != w2:
+            rep.violation("%s, a second option -p of the same type shares its default slice (%s): variables are %s and %s (ran=%s err=%s), specification says %s and %s" % (
+                describe(c), c["pair"], r.get("value"), r.get("value2"), r.get("ran"), r.get("err"), w1, w2),
+                {"engine": "values", "case": {k: v for k, v in c.items() if k != "cli_first"}, "expected": w1, "expected2": w2})
+    rep.cov["shared_default_cases"] = len(cases)
+    return len(cases)
+
+
+def pair_replay_bad(o, r):
+    return not (r.get("ran") and r.get("value") == o["expected"] and r.get("value2", []) == o.get("expected2", []))
